@@ -133,6 +133,9 @@ def plan(ctx):
     for k in KEYS:
         for f in FAULTS:
             ops.append("redact exec key=%s fault=%s cmd=%s" % (hx(k), f, rng.choice(CMDS)))
+    # the same faults through the client as the worker builds it (NewClient: its transport, redirect policy and limiter)
+    for f in FAULTS:
+        ops.append("redact exec key=%s fault=%s cmd=%s via=newclient" % (hx(rng.choice(KEYS)), f, rng.choice(CMDS)))
     for _ in range(n):
         ops.append("redact exec key=%s fault=%s cmd=%s" % (hx(rng.choice(KEYS) + "".join(rng.choice("abc+/= &%") for _ in range(rng.randint(0, 4)))),
                                                          rng.choice(FAULTS), rng.choice(CMDS)))
